@@ -296,6 +296,9 @@ fn allocate_dialogue(run: &mut Run, rng: &mut Rng, env: &Env) {
     let relayed = gen_addr(rng);
     let lifetime = *rng.pick(&[0u32, 1, 300, 600, 3600, u32::MAX]);
     let code = *rng.pick(&[401u16, 401, 438]);
+    // every other dialogue starts with a forged success response (foreign transaction id, bogus relayed address)
+    let forged_first = rng.chance(1, 2);
+    let bogus: SocketAddr = "192.0.2.66:6666".parse().unwrap();
     let client = env.client.clone();
     let (user, pass) = (cr.user.clone(), cr.pass.clone());
     let server = &env.server;
@@ -304,6 +307,13 @@ fn allocate_dialogue(run: &mut Run, rng: &mut Rng, env: &Env) {
         let srv = async {
             let mut reqs: Vec<Vec<u8>> = vec![];
             let mut buf = vec![0u8; 4096];
+            if forged_first {
+                if let Ok(Ok((n, _))) = tokio::time::timeout(Duration::from_secs(2), server.recv_from(&mut buf)).await {
+                    let mut tx: [u8; 12] = buf[8..20].try_into().unwrap(); tx[0] ^= 0x80; let _ = n;
+                    let forged = server_reply(tx, METHOD_ALLOCATE, CLASS_SUCCESS_RESPONSE, &[(ATTR_LIFETIME, 600u32.to_be_bytes().to_vec())], Some(bogus), None);
+                    let _ = server.send_to(&forged, client_addr).await;
+                }
+            }
             for step in 0..2 {
                 let Ok(Ok((n, _))) = tokio::time::timeout(Duration::from_secs(2), server.recv_from(&mut buf)).await else { break };
                 let req = buf[..n].to_vec();
@@ -331,6 +341,7 @@ fn allocate_dialogue(run: &mut Run, rng: &mut Rng, env: &Env) {
     oracle_request(run, &c1, "allocate", &reqs[1], &tx1, METHOD_ALLOCATE, CLASS_REQUEST, Some(&cr), None,
         &[(ATTR_REQUESTED_TRANSPORT, vec![17, 0, 0, 0]), (ATTR_LIFETIME, 600u32.to_be_bytes().to_vec())]);
     match res {
+        Ok((addr, _)) if forged_first && addr == bogus => run.fail("codec:turn:allocate:response-with-foreign-transaction-id-honoured", &c1, &addr.to_string()),
         Ok((addr, lt)) => {
             if addr != relayed { run.fail(&format!("codec:turn:allocate:xor-relayed:{}", if relayed.is_ipv4() { "v4" } else { "v6" }), &c1, &format!("{addr} vs {relayed}")); }
             let want = if lifetime > 0 { lifetime } else { 600 };
